@@ -526,11 +526,47 @@ func genLP(r *kit.Rand, i int, tier string) []string {
 	return append(ops, "lpend")
 }
 
+// genFault: two stream recordings made one after the other in ONE process. The first goes to a writer that takes j
+// whole records and off more bytes and then fails for good (volume full) while every point is still handed to the
+// recorder (doRecordStream ignores the error); the second, of other data, is healthy and is the one replayed. off is
+// directed at every class: 0 (before the first record / between two records), inside the db / rp lines, inside the
+// line protocol line, the last byte of a record, beyond the end (no fault at all).
+func genFault(r *kit.Rand, i int, tier string) []string {
+	pt := func(t int64) string {
+		nt := r.Intn(3)
+		return fmt.Sprintf("pt %s %s %s %s %s %d", kit.Esc(kit.Pick(r, cleanDBs)), kit.Esc(kit.Pick(r, cleanRPs)),
+			kit.Esc(kit.Pick(r, cleanNames)), genTags(r, nt), genFields(r, r.Range(1, 3), 15), t)
+	}
+	nA, nB := r.Range(1, 6), r.Range(1, 5)
+	if r.Chance(1, 12) {
+		nA = r.Range(10, 40) // many records pile up behind the fault
+	}
+	tA, tB := genTimes(r, nA), genTimes(r, nB)
+	j := r.Intn(nA + 1)
+	if r.Chance(1, 4) {
+		j = 0
+	}
+	off := kit.Pick(r, []int{0, 0, 0, 1, 2, r.Range(3, 12), r.Range(8, 40), r.Range(20, 120), 100000})
+	ops := []string{fmt.Sprintf("stream %s %d n fault %d %d", b01(r.Bool()), genZero(r, tB[0]), j, off)}
+	for _, t := range tA {
+		ops = append(ops, pt(t))
+	}
+	ops = append(ops, "cut")
+	for _, t := range tB {
+		ops = append(ops, pt(t))
+	}
+	return append(ops, "replay")
+}
+
 func genCase(r *kit.Rand, i int, tier string) []string {
 	// every fifth case is one of the kinds added later (live stream, live batch, parser); the others see the
 	// same consecutive index sequence as before
 	if i%5 == 4 {
 		j := i / 5
+		if j%4 == 3 { // a failed recording followed by a healthy one in the same process
+			return genFault(r, j/4, tier)
+		}
+		j -= (j + 1) / 4
 		switch j % 3 {
 		case 0:
 			return genLiveStream(r, j/3, tier)
